@@ -49,7 +49,8 @@ def bounds(tier):
 def tasks(tier):
     out = []
     ms = [1, 2, 3]
-    for M, pc, mu, st in itertools.product(ms, PER_CLASS, UNKNOWN, STRATS):
+    for M, pc, mu, st in itertools.product(ms, PER_CLASS, UNKNOWN,
+                                           STRATS if tier == "thorough" else STRATS[1:]):
         cfg = dict(M=M, per_class=pc, max_unknown=mu, strat=st, alphabet=ALL17)
         for e in Q4:
             out.append({"family": "caps", "cfg": cfg, "entry": e, "bound": 0})
@@ -69,6 +70,14 @@ def tasks(tier):
             for first in REDUCED:
                 out.append({"family": "caps-timing", "cfg": dict(cfg, script_prefix=[first]),
                             "entry": e, "bound": b, "weight": 5})
+    # the caps reach the loop through every sugar layer (decorator, wrappers, from_config, contexts)
+    SUGAR = ["deco", "adeco", "RetryPolicy.call", "AsyncRetryPolicy.execute", "RetryCfg.call",
+             "AsyncRetryCfg.call", "RetryPolicyCfg.execute", "AsyncRetryPolicyCfg.call",
+             "Policy.context", "AsyncPolicy.context", "RetryPolicySet.call",
+             "AsyncRetryPolicySet.execute"]
+    for pc, mu, e in itertools.product([{}, {"T": 1}, {"U": 3}], [None, 0, 1, 3], SUGAR):
+        cfg = dict(M=4, per_class=pc, max_unknown=mu, alphabet=REDUCED, sleeper="policy")
+        out.append({"family": "caps-sugar", "cfg": cfg, "entry": e, "bound": 0})
     # attempt_timeout_s: an attempt cut short counts as a (TRANSIENT) failure like any other
     for pc, mu, at in itertools.product([{}, {"T": 1}, {"T": 0}], [None, 1], [1, 2]):
         for e in Q4:
@@ -85,7 +94,8 @@ def tasks(tier):
                     "weight": 6 if mode == "async-interleave" else 2})
     # carry-over between consecutive calls on one policy object
     for pc, mu in itertools.product([{}, {"T": 1}, {"U": 1}, {"T": 0}], [None, 1, 2]):
-        cfg = dict(M=3 if tier == "quick" else 4, per_class=pc, max_unknown=mu, alphabet=REDUCED)
+        cfg = dict(M=3 if tier == "quick" else 4, per_class=pc, max_unknown=mu,
+                   alphabet=REDUCED if tier == "thorough" else ["ok", "x:T", "x:U", "r:T"])
         for e in Q4:
             out.append({"family": "carry", "cfg": cfg, "entry": e, "bound": 0})
     return out
